@@ -576,11 +576,17 @@ pub fn c20_sweep() -> Merged {
             h.begin_case();
             h.giant_limit = 64 << 20;
         });
+        let mut cur = CurrentFile::open("C20", shard);
         let mut i = shard;
         while i < cases.len() {
             let (kind, len, last) = cases[i];
             m.evaluations += 1;
-            match niche_case(kind, len, last) {
+            cur.record(&json!({"kind": "niche", "storage": kind, "len": len, "last": last}));
+            let r = std::panic::catch_unwind(|| niche_case(kind, len, last)).unwrap_or_else(|p| {
+                let msg = p.downcast_ref::<String>().cloned().or_else(|| p.downcast_ref::<&str>().map(|s| s.to_string())).unwrap_or_default();
+                Err(("C20.niche_panic".to_string(), format!("building, wrapping in Some and matching a {len}-byte string with last byte {last:#x} panicked: {msg}")))
+            });
+            match r {
                 Ok(()) => {
                     m.distinct.insert(digest(&cases[i]));
                 }
@@ -598,9 +604,28 @@ pub fn c20_sweep() -> Merged {
                 m.violation = Some(Violation { case: json!({"kind": "niche", "storage": 9, "len": 0, "last": 0}), clause: "C20.none_is_none".into(), step: 0, detail: "None is Some".into() });
             }
         }
+        cur.clear();
         shadow::with(|h| {
             h.end_case();
         });
         m
+    })
+}
+
+/// replay of the sweep case kinds of this file
+pub fn replay_sweep(kind: &str, case: &Value) -> Option<Vec<(usize, String, String)>> {
+    let u = |k: &str| case.get(k).and_then(|v| v.as_u64()).map(|v| v as usize);
+    let r: Result<(), (String, String)> = match kind {
+        "niche" => niche_case(u("storage")?, u("len")?, u("last")? as u32),
+        "clone_sweep" => clone_sweep_case(u("len")?, u("state")?, u("clones")?, case.get("multi")?.as_bool()?).map(|_| ()),
+        "ctor" => {
+            let route = ROUTES.iter().position(|r| Some(*r) == case.get("route").and_then(|v| v.as_str()))?;
+            ctor_case(route, case.get("text")?.as_str()?)
+        }
+        _ => return None,
+    };
+    Some(match r {
+        Ok(()) => vec![],
+        Err((c, d)) => vec![(0, c, d)],
     })
 }
